@@ -21,12 +21,15 @@ def merge_case(fam, doc, s1, s2, kind):
     if a.res_doc is None:
         return None
     bb = S.Applied(info, a.res_doc, s2)
+    mres_t = "None"
+    mres = None
     try:
         merged = s1.merge(s2)
     except Exception as e:  # noqa: BLE001
+        # Step.merge raised (it must answer None for steps it cannot merge): recorded as "no merged step, yet a result"
         merged = None
-    mres_t = "None"
-    mres = None
+        mres_t = "(Some (RErr ErrInternal))"
+        mres = ["merge-raised", f"{type(e).__name__}: {e}"[:100]]
     if merged is not None and S.positions_ok(merged):
         md, mtag = S.sresult(lambda: merged.apply(doc))
         mres_t = f"(Some {S.sresult_term(info, md, mtag)})"
@@ -150,6 +153,20 @@ def generate(rng: random.Random, tier: str):
                         cs = merge_case(fam, doc, s1, ReplaceStep(f2, t2, sl2), "replace-pair-open-left")
                         if cs:
                             yield cs
+
+
+    # pairs of DIFFERENT step types (appended stream): Step.merge must answer None, never raise
+    for fam in ("list", "blockmarks"):
+        g, docs = S.family_docs(rng, fam, 4 if quick else 30)
+        for doc in docs:
+            for _ in range(10 if quick else 30):
+                s1 = S.adversarial_step(rng, g, doc, docs)
+                s2 = S.adversarial_step(rng, g, doc, docs)
+                if type(s1) is type(s2):
+                    continue
+                cs = merge_case(fam, doc, s1, s2, "mixed-types")
+                if cs is not None:
+                    yield cs
 
 
 def rebuild(desc):
